@@ -72,7 +72,7 @@ func init() {
 				idx := revocationIndexDesc(P, fn)
 				mp(P, R, "C11.a", kProofDVWC+":nonrev-verified", "accept with nonrev part => NonRevocationProof.VerifyWithChallenge(pk, challenge) was true", fn, AcceptTrue(0), &MustPass{Exempt: none, Match: func(a Atom) bool {
 					c, ok := callAtom(a, True, kRevVWC)
-					return ok && desc(c.Call.Args[0]) == pdNR && desc(c.Call.Args[1]) == pkD && desc(c.Call.Args[2]) == "arg#2"
+					return ok && desc(callArgs(c)[0]) == pdNR && desc(callArgs(c)[1]) == pkD && desc(callArgs(c)[2]) == "arg#2"
 				}})
 				mp(P, R, "C11.a", kProofDVWC+":alpha-bound", "accept with nonrev part => the proven witness value alpha equals the credential's hidden response at the revocation index", fn, AcceptTrue(0),
 					&MustPass{Exempt: none, Match: eqMatcher(is(pdNR+`.Responses["alpha"]`), is("<gabi.ProofD>.AResponses["+idx+"]"))})
@@ -101,21 +101,21 @@ func init() {
 					}
 					// X: the per-proof copy (possibly produced by a helper); its accumulator is the caller's witness'
 					// accumulator (the copy is shallow), so Nu may be read through either
-					x := desc(c.Call.Args[1])
-					if !witRoots[descNN(c.Call.Args[1])] {
+					x := desc(callArgs(c)[1])
+					if !witRoots[descNN(callArgs(c)[1])] {
 						if os.Getenv("GABILINT_DEBUG") != "" {
-							fmt.Println("DEBUG witX", descNN(c.Call.Args[1]))
+							fmt.Println("DEBUG witX", descNN(callArgs(c)[1]))
 						}
 						return false
 					}
-					nuD := desc(c.Call.Args[2])
+					nuD := desc(callArgs(c)[2])
 					okNu := nuD == x+".SignedAccumulator.Accumulator.Nu"
 					for r := range witRoots {
 						if nuD == r+".SignedAccumulator.Accumulator.Nu" {
 							okNu = true
 						}
 					}
-					if okNu && desc(c.Call.Args[3]) == pkD+".N" {
+					if okNu && desc(callArgs(c)[3]) == pkD+".N" {
 						witX = x
 						return true
 					}
@@ -141,7 +141,7 @@ func init() {
 					}
 					for _, c := range callsIn(g) {
 						if isCallTo(c, "revocation.commitmentsFromSecrets") {
-							args := c.Common().Args
+							args := callArgs(c)
 							okSecrets = witX != "" && desc(args[len(args)-1]) == witX
 						}
 					}
@@ -226,7 +226,7 @@ func revocationVerifyRule(P *Program, R *Report) {
 	var accCall *ssa.Call
 	mp(P, R, rule, kRevVWC+":accumulator-signed", "accept => SignedAccumulator.UnmarshalVerify(pk) returned nil", fn, acc, &MustPass{Match: func(a Atom) bool {
 		c, idx := callAndResult(a.V)
-		if c != nil && calleeIs(c, kSaccVerify) && idx == 1 && a.Want == Nil && desc(c.Call.Args[0]) == revP+".SignedAccumulator" && desc(c.Call.Args[1]) == pkD {
+		if c != nil && calleeIs(c, kSaccVerify) && idx == 1 && a.Want == Nil && desc(callArgs(c)[0]) == revP+".SignedAccumulator" && desc(callArgs(c)[1]) == pkD {
 			accCall = c
 			return true
 		}
@@ -301,7 +301,7 @@ func setExpectedRule(P *Program, R *Report) {
 		if !ok {
 			return false
 		}
-		ar := c.Call.Args
+		ar := callArgs(c)
 		return desc(ar[0]) == pdNR && desc(ar[1]) == pkD && desc(ar[2]) == "<gabi.ProofD>.C" && descNN(ar[3]) == "<gabi.ProofD>.AResponses["+idx+"]"
 	}})
 	mp(P, R, rule, kProofDCC+":response-present", "contribution with a nonrev part => the hidden response at the revocation index is non-nil", cc, AcceptNilErr(1), &MustPass{Exempt: none, Match: func(a Atom) bool {
@@ -334,7 +334,7 @@ func setExpectedRule(P *Program, R *Report) {
 			if !ok || !isCallTo(c, "builtin:append") {
 				return
 			}
-			if tail, okT := seqTail(c.Call.Args[1], 0, map[ssa.Value]bool{}); okT && len(tail) == 3 {
+			if tail, okT := seqTail(callArgs(c)[1], 0, map[ssa.Value]bool{}); okT && len(tail) == 3 {
 				gotV = seqString(tail)
 				okVerbatim = tail[0].D == revP+".Cr" && tail[1].D == revP+".Cu" && tail[2].D == revP+".Nu" &&
 					tail[0].Kind == "elem" && tail[1].Kind == "elem" && tail[2].Kind == "elem"
@@ -367,7 +367,7 @@ func setExpectedRule(P *Program, R *Report) {
 		var order []string
 		for _, c := range callsIn(cf) {
 			if isCallTo(c, "zkproof.(*QrRepresentationProofStructure).CommitmentsFromProof") {
-				d := desc(c.Common().Args[0])
+				d := desc(callArgs(c)[0])
 				order = append(order, d[strings.LastIndex(d, ".")+1:])
 			}
 		}
@@ -377,7 +377,7 @@ func setExpectedRule(P *Program, R *Report) {
 		var order []string
 		for _, c := range callsIn(cs) {
 			if isCallTo(c, "zkproof.(*QrRepresentationProofStructure).CommitmentsFromSecrets") {
-				d := desc(c.Common().Args[0])
+				d := desc(callArgs(c)[0])
 				order = append(order, d[strings.LastIndex(d, ".")+1:])
 			}
 		}
@@ -431,7 +431,7 @@ func refreshAgreementRule(P *Program, R *Report) {
 		okLayout := false
 		for _, c := range callsIn(cs) {
 			if call, ok := c.(*ssa.Call); ok && isCallTo(call, "builtin:append") {
-				if tail, ok := seqTail(call.Call.Args[1], 0, map[ssa.Value]bool{}); ok && len(tail) == 3 {
+				if tail, ok := seqTail(callArgs(call)[1], 0, map[ssa.Value]bool{}); ok && len(tail) == 3 {
 					okLayout = strings.HasSuffix(tail[0].D, ".cr") && strings.HasSuffix(tail[1].D, ".cu") && strings.HasSuffix(tail[2].D, ".nu")
 				}
 			}
@@ -452,7 +452,7 @@ func refreshAgreementRule(P *Program, R *Report) {
 					}
 					// ... or of the per-proof copy a helper produced
 					if u, isLoad := s.val.(*ssa.UnOp); isLoad && !ok {
-						if fa, isFA := u.X.(*ssa.FieldAddr); isFA && fieldName(fa.X.Type(), fa.Field) == "SignedAccumulator" {
+						if fa, isFA := u.X.(*ssa.FieldAddr); isFA && faName(fa) == "SignedAccumulator" {
 							ok = witRoots[descNN(fa.X)]
 						}
 					}
@@ -482,7 +482,7 @@ func refreshAgreementRule(P *Program, R *Report) {
 			R.bad(rule, kUpdCommit+":refresh", "UpdateCommit refreshes the commit", "no call to ProofCommit.Update", P.Pos(uc.Pos()))
 			return
 		}
-		ar := upd.Call.Args
+		ar := callArgs(upd)
 		R.decide(rule, kUpdCommit+":args", "the builder's own commit and commitment list are refreshed from the given witness", desc(ar[0]) == nb+".commit" && desc(ar[1]) == nb+".commitments" && desc(ar[2]) == "<revocation.Witness>", "", P.Pos(upd.Pos()))
 		q := &MustPass{P: P, Match: func(a Atom) bool {
 			g, ok := parseGuard(a, nil)
